@@ -563,5 +563,36 @@ def run(cx):
             dl._PURE_CALLABLES.discard(dl._PURE_STDLIB[k_])
             dl._PURE_STDLIB[k_] = v_
 
+    # ---- C11-REGEX ---------------------------------------------------------------------------
+    # "terminates promptly": the statement parser matches every source line against its regexes with a backtracking matcher;
+    # a pattern with an ambiguous nested repetition takes time exponential in the length of a line that finally fails to match
+    from .. import rx as rxa
+    r = cx.rule("C11-REGEX", "no regular expression of the transpiler nests an unbounded repeat at the end of the body of another unbounded repeat such that both can consume the same characters (exponential backtracking on a non-matching line); module-level patterns are evaluated even when built by a helper or an f-string", floor=60)
+    for m_ in mods + [init]:
+        for name, node in m_.consts.items():
+            v = lit.try_ev(node, m_)
+            if not isinstance(v, lit.Regex) and isinstance(node, (ast.Call, ast.Name)):
+                try:
+                    v = dl.Interp(m_).expr(node, {})
+                except (dl.Unsupported, dl.Raised):
+                    v = None
+            if isinstance(v, lit.Regex):
+                try:
+                    amb = rxa.ambiguous_nested_repeats(v.pattern)
+                except rxa.RxUnsupported as e:
+                    raise AnalysisError(f"regex {name} uses a construct the analysis does not model: {e}")
+                except re.error as e:
+                    raise AnalysisError(f"regex {name} does not compile: {e}")
+                r.check(not amb, f"{m_.rel.split('/')[-1]}:{name}/no-ambiguous-nested-repeat", (m_.rel, node.lineno), f"pattern {v.pattern!r}: {amb[0][1] if amb else ''} (characters {amb[0][0] if amb else ''}...); a long line that fails to match makes parse() run for minutes", sample=None)
+        for c_ in ast.walk(m_.tree):
+            if isinstance(c_, ast.Call) and (call_name(c_) or "") in ("re.compile", "re.match", "re.fullmatch", "re.search", "re.sub", "re.findall", "re.split", "re.finditer") and c_.args and isinstance(c_.args[0], ast.Constant) and isinstance(c_.args[0].value, str):
+                if any(c_ is getattr(v_, "value", None) or c_ is v_ for v_ in m_.consts.values()):
+                    continue
+                try:
+                    amb = rxa.ambiguous_nested_repeats(c_.args[0].value)
+                except (rxa.RxUnsupported, re.error):
+                    continue
+                r.check(not amb, f"{m_.rel.split('/')[-1]}/inline-pattern[{c_.args[0].value[:24]}]", (m_, c_), f"pattern {c_.args[0].value!r}: {amb[0][1] if amb else ''}")
+
     # ---- C11-STATE ---------------------------------------------------------------------------
     c10.rule_global_state(cx, "C11-STATE", mods + [init])
